@@ -1051,6 +1051,153 @@ fn group(faults: Vec<StoredFault>) -> Vec<Vec<StoredFault>> {
 pub struct SiteGroup {
     pub inner: Option<String>,
     pub faults: Vec<StoredFault>,
+    /// amplified input: run a short list of calls instead of the whole API sweep
+    pub light: bool,
+}
+
+fn find(h: &[u8], n: &[u8]) -> Option<usize> {
+    h.windows(n.len()).position(|w| w == n)
+}
+
+/// Amplification: a valid part whose item list is replaced or extended by `n` generated items
+/// in ascending, descending or constant order.  Correct code handles them in time and memory
+/// proportional to their number; code that is accidentally quadratic in the number of items
+/// (insertion into a sorted vector, rescans, `contains` on a list) does not.
+pub fn amplify_sites(fx: &Fixture, parts: &mut Parts, n: u32) -> Vec<Vec<StoredFault>> {
+    let mut out: Vec<Vec<StoredFault>> = Vec::new();
+    let zp = |part: &str, e: Edit, why: String| StoredFault { layer: Layer::ZipPart { part: part.to_string(), pack: Pack::Deflated }, edit: Some(e), why };
+    let names: Vec<String> = parts.zip.as_ref().map(|z| z.iter().map(|e| e.name.clone()).collect()).unwrap_or_default();
+    match fx.format {
+        Format::Xlsx => {
+            let sheet_parts: Vec<String> = names.iter().filter(|n| n.starts_with("xl/worksheets/") && n.ends_with(".xml")).cloned().collect();
+            let with_rows = sheet_parts.iter().find(|n| parts.part(n).map_or(false, |d| find(&d, b"<sheetData>").is_some() && find(&d, b"</sheetData>").is_some())).cloned();
+            if let Some(sheet) = with_rows.as_ref() {
+                if let Some(data) = parts.part(sheet) {
+                    if let (Some(a), Some(b)) = (find(&data, b"<sheetData>"), find(&data, b"</sheetData>")) {
+                        let a = a + b"<sheetData>".len();
+                        let row = b"<row r=\"{#}\"><c r=\"A{#}\"><v>{#}</v></c><c r=\"B{#}\" t=\"str\"><v>x</v></c></row>".to_vec();
+                        for (what, start, step) in [("descending rows", n as i64, -1i64), ("ascending rows", 1, 1), ("the same row", 7, 0)] {
+                            out.push(vec![
+                                zp(sheet, Edit::Delete { off: a, len: b - a }, format!("xml:amplify (removal of the original rows of {})", sheet)),
+                                zp(sheet, Edit::Repeat { off: a, pattern: row.clone(), count: n, start, step, le: vec![] }, format!("xml:amplify {} sheetData replaced by {} generated rows, {}", sheet, n, what)),
+                            ]);
+                        }
+                        // one row with many cells in descending column order is not expressible with a
+                        // decimal counter (columns are letters); many cells without r (implicit columns):
+                        let cells = b"<c><v>{#}</v></c>".to_vec();
+                        out.push(vec![
+                            zp(sheet, Edit::Delete { off: a, len: b - a }, format!("xml:amplify (removal of the original rows of {})", sheet)),
+                            zp(sheet, Edit::Insert { off: a, bytes: b"<row r=\"1\"></row>".to_vec() }, "xml:amplify (one row)".into()),
+                            zp(sheet, Edit::Repeat { off: a + b"<row r=\"1\">".len(), pattern: cells, count: n.min(16000), start: 1, step: 1, le: vec![] }, format!("xml:amplify {} one row with {} cells at implicit positions", sheet, n.min(16000))),
+                        ]);
+                        if let Some(m) = find(&data, b"<mergeCells") {
+                            if let Some(gt) = data[m..].iter().position(|c| *c == b'>') {
+                                out.push(vec![zp(sheet, Edit::Repeat { off: m + gt + 1, pattern: b"<mergeCell ref=\"A{#}:B{#}\"/>".to_vec(), count: n, start: n as i64, step: -1, le: vec![] }, format!("xml:amplify {} {} generated mergeCell elements", sheet, n))]);
+                            }
+                        }
+                    }
+                }
+            }
+            if let Some(data) = parts.part("xl/sharedStrings.xml") {
+                if let Some(m) = find(&data, b"<sst") {
+                    if let Some(gt) = data[m..].iter().position(|c| *c == b'>') {
+                        out.push(vec![zp("xl/sharedStrings.xml", Edit::Repeat { off: m + gt + 1, pattern: b"<si><t>s{#}</t></si>".to_vec(), count: n, start: 0, step: 1, le: vec![] }, format!("xml:amplify xl/sharedStrings.xml {} generated strings", n))]);
+                    }
+                }
+            }
+            if let Some(data) = parts.part("xl/workbook.xml") {
+                if let Some(m) = find(&data, b"</sheets>") {
+                    let at = m + b"</sheets>".len();
+                    out.push(vec![zp("xl/workbook.xml", Edit::Insert { off: at, bytes: b"<definedNames></definedNames>".to_vec() }, "xml:amplify (definedNames container)".into()),
+                        zp("xl/workbook.xml", Edit::Repeat { off: at + b"<definedNames>".len(), pattern: b"<definedName name=\"n{#}\">Sheet1!$A${#}</definedName>".to_vec(), count: n, start: 1, step: 1, le: vec![] }, format!("xml:amplify xl/workbook.xml {} generated defined names", n))]);
+                }
+            }
+            if let Some(data) = parts.part("xl/_rels/workbook.xml.rels") {
+                if let Some(m) = find(&data, b"</Relationships>") {
+                    out.push(vec![zp("xl/_rels/workbook.xml.rels", Edit::Repeat { off: m, pattern: b"<Relationship Id=\"rIdX{#}\" Type=\"t\" Target=\"worksheets/none{#}.xml\"/>".to_vec(), count: n, start: 1, step: 1, le: vec![] }, format!("xml:amplify workbook.xml.rels {} generated relationships", n))]);
+                }
+            }
+        }
+        Format::Ods => {
+            if let Some(data) = parts.part("content.xml") {
+                if let Some(m) = find(&data, b"<table:table ") {
+                    if let Some(gt) = data[m..].iter().position(|c| *c == b'>') {
+                        let at = m + gt + 1;
+                        out.push(vec![zp("content.xml", Edit::Repeat { off: at, pattern: b"<table:table-row><table:table-cell office:value-type=\"float\" office:value=\"{#}\"/><table:table-cell office:value-type=\"string\"><text:p>s{#}</text:p></table:table-cell></table:table-row>".to_vec(), count: n, start: 1, step: 1, le: vec![] }, format!("xml:amplify content.xml {} generated rows", n))]);
+                        out.push(vec![
+                            zp("content.xml", Edit::Insert { off: at, bytes: b"<table:table-row></table:table-row>".to_vec() }, "xml:amplify (one row)".into()),
+                            zp("content.xml", Edit::Repeat { off: at + b"<table:table-row>".len(), pattern: b"<table:table-cell office:value-type=\"float\" office:value=\"{#}\"/>".to_vec(), count: n, start: 1, step: 1, le: vec![] }, format!("xml:amplify content.xml one row with {} generated cells", n)),
+                        ]);
+                    }
+                }
+            }
+        }
+        Format::Xlsb => {
+            if let Some(sheet) = names.iter().find(|n| n.starts_with("xl/worksheets/sheet") && n.ends_with(".bin")) {
+                if let Some(data) = parts.part(sheet) {
+                    if let Some(r) = xlsb_records(&data).into_iter().find(|r| r.typ == 0x0091) {
+                        let at = r.off + r.hdr + r.len;
+                        // BrtRowHdr (17 bytes) + BrtCellReal (16 bytes)
+                        let mut pat = vec![0x00u8, 17];
+                        pat.extend_from_slice(&[0u8; 17]);
+                        pat.extend_from_slice(&[0x05, 16]);
+                        pat.extend_from_slice(&[0u8; 8]);
+                        pat.extend_from_slice(&1.5f64.to_le_bytes());
+                        for (what, start, step) in [("descending rows", n as i64, -1i64), ("ascending rows", 0, 1)] {
+                            out.push(vec![zp(sheet, Edit::Repeat { off: at, pattern: pat.clone(), count: n, start, step, le: vec![(2, 4)] }, format!("xlsb:amplify {} {} generated row+cell records, {}", sheet, n, what))]);
+                        }
+                        // many cells of one row in descending column order
+                        let mut cell = vec![0x05u8, 16];
+                        cell.extend_from_slice(&[0u8; 8]);
+                        cell.extend_from_slice(&2.5f64.to_le_bytes());
+                        let mut rowhdr = vec![0x00u8, 17];
+                        rowhdr.extend_from_slice(&[0u8; 17]);
+                        out.push(vec![
+                            zp(sheet, Edit::Insert { off: at, bytes: rowhdr.clone() }, "xlsb:amplify (row header)".into()),
+                            zp(sheet, Edit::Repeat { off: at + rowhdr.len(), pattern: cell, count: n.min(16000), start: n.min(16000) as i64, step: -1, le: vec![(2, 4)] }, format!("xlsb:amplify {} one row with {} cells in descending column order", sheet, n.min(16000))),
+                        ]);
+                    }
+                }
+            }
+            if let Some(data) = parts.part("xl/sharedStrings.bin") {
+                if let Some(r) = xlsb_records(&data).into_iter().find(|r| r.typ == 0x009F) {
+                    // BrtSSTItem: flags + wide string "ab"
+                    let pat = vec![0x13u8, 9, 0, 2, 0, 0, 0, b'a', 0, b'b', 0];
+                    let cnt_off = r.off + r.hdr + 4;
+                    out.push(vec![
+                        zp("xl/sharedStrings.bin", Edit::Repeat { off: r.off + r.hdr + r.len, pattern: pat, count: n, start: 0, step: 1, le: vec![] }, format!("xlsb:amplify sharedStrings.bin {} generated items", n)),
+                        zp("xl/sharedStrings.bin", Edit::Set { off: cnt_off, bytes: n.to_le_bytes().to_vec() }, "xlsb:amplify (unique count raised)".into()),
+                    ]);
+                }
+            }
+        }
+        Format::Xls => {
+            if let Some(l) = parts.cfb.clone() {
+                let streams = cfbfmt::all_streams(&fx.bytes, &l);
+                for (e, s) in l.dir.iter().zip(&streams) {
+                    if e.typ != 2 || !(e.name == "Workbook" || e.name == "Book") || s.is_empty() {
+                        continue;
+                    }
+                    // after the first worksheet DIMENSIONS record
+                    if let Some(r) = biff_records(s).into_iter().find(|r| r.typ == 0x0200) {
+                        let at = r.off + r.hdr + r.len;
+                        let mut pat = vec![0x03u8, 0x02, 14, 0];
+                        pat.extend_from_slice(&[0u8; 6]);
+                        pat.extend_from_slice(&3.5f64.to_le_bytes());
+                        let cnt = n.min(65000);
+                        for (what, start, step) in [("descending rows", cnt as i64, -1i64), ("ascending rows", 0, 1)] {
+                            out.push(vec![StoredFault {
+                                layer: Layer::CfbStream { stream: e.name.clone() },
+                                edit: Some(Edit::Repeat { off: at, pattern: pat.clone(), count: cnt, start, step, le: vec![(4, 2)] }),
+                                why: format!("biff:amplify {} {} generated NUMBER records, {}", e.name, cnt, what),
+                            }]);
+                        }
+                    }
+                }
+            }
+        }
+    }
+    out
 }
 
 pub fn sites(fx: &Fixture, parts: &mut Parts, tier: Tier) -> Vec<SiteGroup> {
@@ -1060,7 +1207,7 @@ pub fn sites(fx: &Fixture, parts: &mut Parts, tier: Tier) -> Vec<SiteGroup> {
     let mut all: Vec<SiteGroup> = Vec::new();
     let mut push = |inner: Option<String>, fs: Vec<StoredFault>, all: &mut Vec<SiteGroup>| {
         for g in group(fs) {
-            all.push(SiteGroup { inner: inner.clone(), faults: g });
+            all.push(SiteGroup { inner: inner.clone(), faults: g, light: false });
         }
     };
     // ---- layer 0 ----
@@ -1166,6 +1313,16 @@ pub fn sites(fx: &Fixture, parts: &mut Parts, tier: Tier) -> Vec<SiteGroup> {
                     }
                 }
             }
+        }
+    }
+    // ---- amplification (every fixture in the thorough tier, the any_sheets.* quartet in quick) ----
+    let amp_n = match tier {
+        Tier::Quick => 100_000,
+        Tier::Thorough => 250_000,
+    };
+    if tier == Tier::Thorough || fx.name.starts_with("any_sheets.") {
+        for g in amplify_sites(fx, parts, amp_n) {
+            all.push(SiteGroup { inner: None, faults: g, light: true });
         }
     }
     // ---- layer 1: BIFF workbook stream of an xls file ----
